@@ -50,7 +50,7 @@ Print Assumptions C14_history_refuted.
 
 (* the first call terminates after fix D5: measure = 1 + pending stubs *)
 Theorem C14_first_call_terminates : forall F st c m d fuel,
-  slot_wf st -> no_cache_stub st -> resolved F st -> m_spec m = 0 -> get_slot st c m <> None ->
+  slot_wf st -> no_cache_stub st -> resolved F st -> get_slot st c m <> None ->
   1 + pending st c m <= fuel ->
   dispatch F true fuel st c m d = dispatch F true (1 + pending st c m) st c m d /\
   snd (dispatch F true fuel st c m d) <> DOOF.
@@ -63,14 +63,12 @@ Theorem C14_lazy_dialect_diverges : forall fuel,
 Proof. exact lazy_dialect_diverges. Qed.
 Print Assumptions C14_lazy_dialect_diverges.
 
-(* defects contained in the faithful model (known findings) *)
-Theorem C14_lazy_specialisation_diverges :
-  (forall fuel, dispatch (F_spec true) true fuel st_spec 0 (MN true 0 false 1) None = (st_spec, DOOF)) /\
-  nth_error (LazyModel.run (F_spec true) true FUEL st0 h_spec) 2 = Some OOF /\
-  nth_error (LazyModel.run (F_spec false) true FUEL st0 h_spec) 2 =
+(* a lazy generic class used as G[int]: the stub rebuilds the specialised method (was a known finding) *)
+Example C14_lazy_specialisation_agrees :
+  LazyModel.run (F_spec true) true FUEL st0 h_spec = LazyModel.run (F_spec false) true FUEL st0 h_spec /\
+  nth_error (LazyModel.run (F_spec true) true FUEL st0 h_spec) 2 =
     Some (Out (Node 1 to_dict None [Node 0 (MN true 0 false 1) None []])).
-Proof. split; [exact spec_loop|exact lazy_specialisation_diverges]. Qed.
-Print Assumptions C14_lazy_specialisation_diverges.
+Proof. exact lazy_specialisation_agrees. Qed.
 
 (* after fix 28d8957: no call fails on a missing dialect cache, in any state / mode / order *)
 Theorem C14_no_cache_attribute_error : forall F d5 fuel x st c m d st' o,
